@@ -358,3 +358,7 @@ def run(F, rep):
     import core
     import c08
     c08.run(F, core.Borrowed(rep, only={'C08.M1', 'C08.M3'}))
+    # ... and with C09: the units the analyser scales from are those linkUnits() left on the variables; linkUnits() recognises stale units by their owning model,
+    # so units removed from a model must lose their parent (every erase/clear of a child container clears the parent of what it removes)
+    import c09
+    c09.run(F, core.Borrowed(rep, only={'C09.P3', 'C09.P4'}))
